@@ -382,7 +382,7 @@ def _self_field(e: ast.expr) -> ast.expr | None:
             r = r.value
         if isinstance(r, ast.Name):
             return e
-    if isinstance(e, ast.Subscript) and isinstance(e.value, ast.Name) and isinstance(e.slice, ast.Constant):
+    if isinstance(e, ast.Subscript) and isinstance(e.value, ast.Name) and isinstance(e.slice, (ast.Constant, ast.Name)):
         return e
     return None
 
@@ -402,7 +402,8 @@ def _copy_prop(block: list[ast.stmt], mutable: set[str], in_init: bool, keep: se
             if base == v:
                 i += 1
                 continue
-            while j < len(block) and v not in _stores(block[j]) and base not in _stores(block[j]):
+            key = fld.slice.id if isinstance(fld, ast.Subscript) and isinstance(fld.slice, ast.Name) else None
+            while j < len(block) and v not in _stores(block[j]) and base not in _stores(block[j]) and (key is None or key not in _stores(block[j])):
                 j += 1
             chain = []
             r_ = fld
